@@ -1,5 +1,7 @@
 import SFV.Model.Net
 import SFV.Model.Exec
+import SFV.Model.TfMachine
+import SFV.Model.LoopComb
 import SFV.Model.Proto
 open SFV SFV.Proto SFV.Net
 
@@ -9,6 +11,8 @@ open SFV SFV.Proto SFV.Net
 `prov <spec>`   -> `<port>:<tag>><port>:<tag>,...` (sorted, duplicates removed) or `-`
 `status <spec>` -> `<node index>=<STATUS>,...`  final status of every node's step without failures
 `exec <spec> fail=<node index>` -> outcome of the executor protocol model (see SFV/Model/Exec.lean)
+`loopcomb <0|1> <port>*` -> `done=..;deadlocked=..;unread=..` of the LoopCombinatorStep reading protocol (LoopComb) on real streams
+`tfm <port>*`   -> `out=<tags in firing order>;left=<partial groups left>` of the operational grouping loop (TfMachine)
 
 spec words: `n=<nports>` `s:<port>:<val>` `c:<port>` `tf:<fn>:<k>:<ins>/<outs>` `cond:<m>:<r>:<z|d>:<ins>/<outs>`
 `exec:<k>:<ins>/<out>` `scatter:<inp>:<out>:<size>` `gather:<inp>:<size>:<out>:<depth>` `dot:<ins>/<outs>`
@@ -62,6 +66,7 @@ def parseFn (f k : String) : Option Fn := do
   | "lin" => some (.lin ki)
   | "pair" => some .pair
   | "split" => some .split
+  | "loop" => some (.loop ki.toNat)
   | _ => none
 
 def parseWord (sp : Spec) (w : String) : Option Spec :=
@@ -137,6 +142,41 @@ def handle : List String → String
           | some sp => Exec.showOutcome (Exec.runDefault sp none)
           | none => "bad-op"
       | _ => "bad-op"
+  | "tfm" :: ports =>
+      -- operational grouping loop on the real arrival orders: one word per port, comma separated tags (`-` = empty)
+      let parsePort (w : String) : Option (List Tok) :=
+        if w = "-" then some [] else (w.splitOn ",").mapM (fun t => (parseTag t).map (fun tg => ({ tag := tg, val := .int 0 } : Tok)))
+      match ports.mapM parsePort with
+      | some ls =>
+          let s := runRounds ls
+          let fired := s.out.map (fun g => renderTag g.1)
+          s!"out={if fired.isEmpty then "-" else ",".intercalate fired};left={s.map.length}"
+      | none => "bad-op"
+  | "loopcomb" :: fx :: ports =>
+      -- reading protocol of LoopCombinatorStep on the real port streams, round-robin schedule until nothing can move
+      let parseTok (w : String) : Option LoopComb.Tok :=
+        if w = "T1" then some (.term .completed) else if w = "T0" then some (.term .failed)
+        else if w = "T2" then some (.term .skipped)
+        else if w.startsWith "d" then (parseTag (w.drop 1).toString).map LoopComb.Tok.data
+        else if w.startsWith "i" then (parseTag (w.drop 1).toString).map LoopComb.Tok.iterTerm
+        else none
+      let parsePort (w : String) : Option (List LoopComb.Tok) :=
+        if w = "-" then some [] else (w.splitOn ",").mapM parseTok
+      match ports.mapM parsePort with
+      | some streams =>
+          let fixed := fx == "1"
+          let n := streams.length
+          let fuel := (streams.map List.length).foldl (· + ·) 0 + 1
+          let rec go (fuel : Nat) (s : LoopComb.St) : LoopComb.St :=
+            match fuel with
+            | 0 => s
+            | f + 1 =>
+                match (List.range n).findSome? (fun i => LoopComb.step fixed s i) with
+                | some s' => go f s'
+                | none => s
+          let s := go fuel (LoopComb.initSt streams)
+          s!"done={if LoopComb.done s then 1 else 0};deadlocked={if LoopComb.deadlocked s then 1 else 0};unread={(s.ports.map (fun p => p.stream.length)).foldl (· + ·) 0}"
+      | none => "bad-op"
   | _ => "bad-op"
 
 def main : IO Unit := runPure handle
